@@ -629,7 +629,8 @@ func extOut(c extCase, thorough bool) bool {
 func extRun[T cmp.Ordered](s []T, key keyFn[T], r *pbt.R) error {
 	n := len(s)
 	var zero, fmin, fmax, vmin, vmax, minBy, maxBy T
-	ctx := func() string { return fmt.Sprintf("s=%#v key=(%s)", s, key.name) }
+	orig := append([]T(nil), s...)
+	ctx := func() string { return fmt.Sprintf("s=%#v key=(%s)", orig, key.name) }
 	what := ""
 	if err := try(func() string { return what + " with " + ctx() }, func() {
 		what = "FindMin"
@@ -648,6 +649,12 @@ func extRun[T cmp.Ordered](s []T, key keyFn[T], r *pbt.R) error {
 		maxBy = gogu.FindMaxBy(s, key.f)
 	}); err != nil {
 		return err
+	}
+	for i := range orig {
+		// Min and Max receive the slice spread into their variadic parameter: it is the caller's slice all the same
+		if s[i] != orig[i] {
+			return fmt.Errorf("after FindMin, FindMax, Min(s...), Max(s...), FindMinBy, FindMaxBy the slice reads %#v; %s", s, ctx())
+		}
 	}
 	if n == 0 {
 		r.Label("empty slice")
